@@ -131,6 +131,62 @@ class Ctx:
                         f"TLC refutes {r.violated} in {module}/{cfg}", {"tlc_tail": r.out[-3000:]})
         return r
 
+    def mc_many(self, jobs, parallel=4):
+        """several model-check configs side by side: jobs = [(module, cfg, kwargs), ...]"""
+        if os.environ.get("VERIF_SKIP_MC") and ("XGCM_SRC" in os.environ or "XGCM_SEEDED_RUN" in os.environ):
+            for m, c, kw in jobs:
+                self.mc(m, c, **kw)
+            return
+        with cf.ThreadPoolExecutor(max_workers=parallel) as ex:
+            futs = [ex.submit(tlc.run, m, c, workers=kw.get("workers", 4), timeout=kw.get("timeout", 3000)) for m, c, kw in jobs]
+            for (m, c, kw), f in zip(jobs, futs):
+                r = f.result()
+                entry = {"module": m, "cfg": c, "states": r.distinct, "generated": r.generated, "wall_s": round(r.wall, 1),
+                         "violated": r.violated}
+                self.mc_runs.append(entry)
+                self.states += r.distinct
+                self.transitions += r.transitions
+                if r.violated:
+                    self.reject("spec-invariant:" + ",".join(r.violated), f"TLC refutes {r.violated} in {m}/{c}", {"tlc_tail": r.out[-3000:]})
+
+    def apalache(self, module, checks, cinit="CInit", length=0, timeout=900, parallel=3):
+        """symbolic checks of spec/apalache/<module>.tla with Apalache: checks = [(invariant, must_hold)]; must_hold
+        False = a deliberately wrong statement that has to be refuted (non-vacuity). A time-out is recorded as
+        inconclusive (the bounded TLC runs remain the registered evidence); a wrong outcome is a design violation."""
+        if os.environ.get("VERIF_SKIP_MC") and ("XGCM_SRC" in os.environ or "XGCM_SEEDED_RUN" in os.environ):
+            return
+        spec_dir = os.path.join(ROOT, "spec", "apalache")
+
+        def one(job):
+            inv, must_hold = job
+            out = tempfile.mkdtemp(prefix="apalache_")
+            t0 = time.time()
+            try:
+                p = subprocess.run(["apalache-mc", "check", f"--cinit={cinit}", f"--inv={inv}", f"--length={length}",
+                                    f"--out-dir={out}", module + ".tla"], cwd=spec_dir, capture_output=True, text=True, timeout=timeout)
+                ok = "EXITCODE: OK" in p.stdout
+                bad = "The outcome is: Error" in p.stdout
+                res = "holds" if ok else ("refuted" if bad else "error")
+                tail = p.stdout[-1500:]
+            except subprocess.TimeoutExpired:
+                res, tail = "timeout (inconclusive)", ""
+            finally:
+                shutil.rmtree(out, ignore_errors=True)
+            return inv, must_hold, res, round(time.time() - t0, 1), tail
+
+        results = {}
+        with cf.ThreadPoolExecutor(max_workers=parallel) as ex:
+            for inv, must_hold, res, wall, tail in ex.map(one, checks):
+                results[inv] = {"expected": "holds" if must_hold else "refuted", "result": res, "wall_s": wall}
+                if res == "error":
+                    raise Machinery(f"Apalache failed on {module}/{inv}: {tail[-600:]}")
+                if res in ("holds", "refuted") and res != results[inv]["expected"]:
+                    if must_hold:
+                        self.reject("spec-invariant:apalache-" + inv, f"Apalache refutes {inv} of {module}", {"tail": tail})
+                    else:
+                        raise Machinery(f"{module}: expected Apalache to refute {inv} (non-vacuity), it did not")
+        self.extra.setdefault("apalache", {})[module] = results
+
     # ---------------------------------------------------------------- trace validation
     def validate(self, module, records, cfg=None, chunk=800, jvms=8, xss="256m", env=None, timeout=3000):
         """Hand records (dicts with an integer 'id') to the trace spec `module`; returns {id: [clauses]} for
